@@ -38,7 +38,7 @@ PROOF_FAILURE_PATTERNS = (
     "could not prove termination", "might not be allowed", "unable to prove", "fails to satisfy",
 )
 LOG_MACROS = ("trace", "debug", "info", "warn", "error")
-SUBST_KINDS = ("closure-contract", "std-wrap", "verus-syntax")
+SUBST_KINDS = ("closure-contract", "std-wrap", "verus-syntax", "split-or-guard")
 
 
 class ExtractError(Exception):
@@ -84,6 +84,21 @@ def _once(hay, needle, what):
     if c != 1:
         raise ExtractError(f"lost anchor: {what} occurs {c} times (needs exactly 1): {needle[:80]!r}")
     return hay.index(needle)
+
+
+def _drop_inner_lint_attrs(body):
+    """remove lint attributes on expressions/statements inside a body: #[deny(..)] #[allow(..)] #[expect(..)] #[warn(..)]"""
+    mask = rustscan.code_mask(body)
+    out, dropped, i = [], [], 0
+    for m in re.finditer(r"#\[(deny|allow|expect|warn)\(", body):
+        if m.start() < i or not mask[m.start()]:
+            continue
+        close = rustscan.match_close(body, mask, m.start() + 1)
+        out.append(body[i:m.start()])
+        dropped.append(rustscan.norm_ws(body[m.start():close + 1]))
+        i = close + 1
+    out.append(body[i:])
+    return "".join(out), dropped
 
 
 def _drop_logs(body, record):
@@ -234,6 +249,16 @@ def _validate_subst(kind, old, new, template_text):
         w = m.group(1)
         if not re.search(r"#\[verifier::external_body\]\s*(?:pub\s+)?fn\s+%s\b" % w, template_text):
             raise ExtractError(f"std-wrap: wrapper {w} is not an external_body fn of the template")
+    elif kind == "split-or-guard":
+        # `P1 | P2 if G => BODY`  ->  `P1 if G => BODY  P2 if G => BODY` (Verus rejects or-pattern + guard in one arm)
+        m = re.match(r"^(.*?)\s+if\s+(.*?)\s*=>\s*(\{.*\})\s*,?$", old, re.S)
+        if not m:
+            raise ExtractError("split-or-guard: old text is not `pats if guard => { body }`")
+        pats = [x.strip() for x in m.group(1).split("|") if x.strip()]
+        want = " ".join(f"{pt} if {m.group(2)} => {m.group(3)}" for pt in pats)
+        strip = lambda t: re.sub(r"[\s,]", "", t)
+        if strip(want) != strip(new):
+            raise ExtractError("split-or-guard: replacement is not the arm repeated once per alternative")
     elif kind == "verus-syntax":
         # purely syntactic re-spelling Verus needs; both sides must be equal after removing type
         # ascriptions / turbofish / parentheses / `as` casts-free whitespace. Kept deliberately narrow.
@@ -277,6 +302,11 @@ def extract_fn(repo, d, template_text):
     dropped = _preceding_attr_lines(src, it.start)
     if dropped:
         tr.append({"kind": "drop-attr", "dropped": [x[:80] for x in dropped if x.startswith("#[")] or "doc comments"})
+    if d.get("impl") and re.search(r"\bfor\b", d["impl"]):
+        tr.append({"kind": "rehome", "what": f"method of `{d['impl']}` placed in an inherent impl of the template (no dynamic dispatch in its body)"})
+    body, inner = _drop_inner_lint_attrs(body)
+    if inner:
+        tr.append({"kind": "drop-attr", "dropped": inner})
     body = _drop_logs(body, tr)
     if re.search(r"\|\s*_\s*\|", body):
         body = re.sub(r"\|\s*_\s*\|", "|_e|", body)
@@ -334,6 +364,18 @@ def extract_fn(repo, d, template_text):
     for lp in sorted(d.get("loops", []), key=lambda x: -x["n"]):
         body = _insert_loop_spec(body, lp["n"], lp["text"])
         tr.append({"kind": "ins-loop", "loop": lp["n"]})
+    for nst in d.get("nested", []):
+        it2 = rustscan.find_block(body, r"fn\s+%s\b" % re.escape(nst["fn"]), 1, len(body) - 1, 0, base_depth=1)
+        if it2 is None:
+            raise ExtractError(f"lost anchor: nested fn {nst['fn']} not found")
+        nsig = it2.sig.rstrip()
+        if nst.get("ret"):
+            k2 = nsig.rfind("->")
+            if k2 < 0:
+                raise ExtractError(f"nested fn {nst['fn']} has no return type")
+            nsig = nsig[:k2] + f"-> ({nst['ret']}: {nsig[k2 + 2:].strip()})"
+        body = body[:it2.start] + nsig + "\n" + nst["spec"].rstrip() + "\n        " + body[it2.body_open:]
+        tr.append({"kind": "ins-contract", "nested_fn": nst["fn"]})
     if d.get("ret"):
         mask = rustscan.code_mask(sig)
         k = -1
@@ -465,6 +507,7 @@ def extract_type(repo, d):
         rec = {"file": d["file"], "type": d["name"], "sha256": common.sha256_text(m[0].group(0)), "transformations": tr}
         return text + "\n", rec, []
     text, dropped = rustscan.strip_attrs_and_docs(it.text)
+    text = re.sub(r"(?m)^\s*//[^\n]*\n", "", text)   # plain comments inside the type definition
     derives = [l for l in _preceding_attr_lines(src, it.start) if l.startswith("#[derive")]
     tr = [{"kind": "drop-attr", "dropped": derives + dropped}]
     keep = [x for x in d.get("derive", "").split(",") if x]
@@ -539,6 +582,8 @@ def parse_template(text):
                     d["loops"].append({"n": cur[1], "text": t})
                 elif k == "closure":
                     d["closures"].append({"n": cur[1], "text": t})
+                elif k == "nested":
+                    d.setdefault("nested", []).append({"fn": cur[1], "ret": cur[2], "spec": t})
                 cur, acc = None, []
             while i < len(lines) and lines[i].strip() != "//@END":
                 s2 = lines[i].strip()
@@ -565,6 +610,9 @@ def parse_template(text):
                 elif s2.startswith("//@LOOP"):
                     flush()
                     cur = ("loop", int(s2.split()[1]))
+                elif s2.startswith("//@NESTED"):
+                    flush()
+                    cur = ("nested", s2.split()[1], s2.split()[2] if len(s2.split()) > 2 else None)
                 elif s2.startswith("//@CLOSURE"):
                     flush()
                     cur = ("closure", int(s2.split()[1]))
@@ -621,7 +669,13 @@ class Unit:
             elif kind == "extract":
                 gen, rec = extract_fn(repo, val, ttext)
                 chunk = gen
-                fns.append({"fn": val["fn"], "id": f"{self.prop}.{val.get('id', val['fn'])}.contract",
+                sofar = "".join(out)
+                owner = None
+                for mm in re.finditer(r"^impl(?:<[^>]*>)?\s+(\w+)[^\n]*\{\s*$", sofar, re.M):
+                    if not re.search(r"^\}", sofar[mm.end():], re.M):
+                        owner = mm.group(1)
+                key = (owner + "::" if owner else "") + val["fn"]
+                fns.append({"fn": val["fn"], "key": key, "id": f"{self.prop}.{val.get('id', key.replace('::', '.'))}.contract",
                             "start": line, "end": line + gen.count("\n"), "rec": rec, "pin": val.get("sha"),
                             "has_spec": bool(val.get("spec"))})
             elif kind == "type":
@@ -685,7 +739,10 @@ class Unit:
         try:
             for mod in js["times-ms"]["smt"]["smt-run-module-times"]:
                 for fb in mod.get("function-breakdown", []):
-                    breakdown[fb["function"].split("::")[-1]] = fb
+                    parts = fb["function"].split("::")
+                    breakdown[parts[-1]] = fb
+                    if len(parts) >= 2:
+                        breakdown["::".join(parts[-2:])] = fb
         except (KeyError, TypeError):
             pass
         tool_broken = js is None or vr.get("encountered-vir-error") or (
@@ -703,12 +760,13 @@ class Unit:
             if f.get("id") is None:
                 continue
             ex_names.add(f["fn"])
+            ex_names.add(f["key"])
             mine = [e for e in r["errors"] if f["start"] <= e["line"] <= f["end"]]
-            fb = breakdown.get(f["fn"])
+            fb = breakdown.get(f["key"]) or breakdown.get(f["fn"])
             secs = (fb or {}).get("time", 0) / 1000.0 if fb else 0.0
             pristine = f["pin"] is not None and f["rec"]["sha256"].startswith(f["pin"])
             common_kw = dict(fn=f"{f['rec']['file']}:{f['fn']}", functions=[f"{f['rec']['file']}:{f['fn']}"],
-                             extraction=f["rec"], seconds=secs, desc=self.desc.get(f["fn"], ""),
+                             extraction=f["rec"], seconds=secs, desc=self.desc.get(f["key"], self.desc.get(f["fn"], "")),
                              rlimit=(fb or {}).get("rlimit"))
             if not f["has_spec"]:
                 continue
@@ -731,7 +789,7 @@ class Unit:
                 res.append(mk(f["id"], "PROVED-U", "discharged", "verified", **common_kw))
         # template's own proof fns / spec obligations: helpers
         for name, fb in breakdown.items():
-            if name in ex_names:
+            if name in ex_names or "::" in name:
                 continue
             carries = name in self.carries_lemmas
             res.append(mk(f"{self.prop}.{self.name}.lemma.{name}", "PROVED-U",
